@@ -1465,7 +1465,9 @@ class Exec:
                 self.write_place(st, fid, t['dest'], ret)
                 return st
             cmir = cfn['mir']
-            if cfn.get('kind') == 'Closure' and len(args) == 2 and len(args) != cmir['arg_count'] and args[1][0] == 'agg' and args[1][1][0] == 'tuple':
+            via_fn_trait = f['def'] in ('core::ops::FnMut::call_mut', 'core::ops::Fn::call', 'core::ops::FnOnce::call_once',
+                                        'core::ops::function::FnMut::call_mut', 'core::ops::function::Fn::call', 'core::ops::function::FnOnce::call_once')
+            if cfn.get('kind') == 'Closure' and len(args) == 2 and (via_fn_trait or len(args) != cmir['arg_count']) and args[1][0] == 'agg' and args[1][1][0] == 'tuple':
                 # `Fn::call(&closure, (a, b, ..))`: the body takes the tuple's elements as separate parameters
                 first = args[0]
                 t1 = self.pdb.ty(cmir['locals'][1])
@@ -1492,7 +1494,24 @@ class Exec:
                     if v is None:
                         v = self.const_param(a.get('name'))
                     out[g['name']] = v
+                elif g['k'] == 'ty' and a.get('k') == 'ty':
+                    # type parameter of a local generic function: remembered so that trait calls on it dispatch
+                    t = self.pdb.ty(a['ty'])
+                    if t['k'] == 'param':
+                        bound = self.type_param(t['s'])
+                        if bound is not None:
+                            out['$ty:' + g['name']] = bound
+                    else:
+                        out['$ty:' + g['name']] = t['s']
         return out
+
+    def type_param(self, name):
+        if name == 'Self' and self.self_stack and self.self_stack[-1] is not None:
+            return self.self_stack[-1]
+        for env in reversed(self.const_env[-1:]):
+            if '$ty:' + name in env:
+                return env['$ty:' + name]
+        return None
 
     def resolve_callee(self, ctx, f):
         """-> (local fn key | None, self type string for the callee's generic context)."""
@@ -1518,7 +1537,9 @@ class Exec:
         if tr not in pdb.traits:
             return None, None
         if t0['k'] == 'param':
-            sty = ctx['self_ty']
+            sty = self.type_param(t0['s']) if t0['s'] != 'Self' else ctx['self_ty']
+            if sty is None:
+                sty = ctx['self_ty'] if t0['s'] == 'Self' else None
             if sty is None:
                 raise Uncertified("generic call %s outside a dispatch context" % f['def'])
         else:
